@@ -8,7 +8,8 @@ Line protocol of `model_C18` (answers of the Lean model of rten-simd's loops / l
     → `chunks=<active lanes per access, comma separated>` (or `panic`)
 * `fold <fold|foldn|unroll<u>|nunroll<u>> <v> <sum|min|max> <init> <xs>` → lanes of the final
     accumulator of `Iter::fold` / `fold_n` (min;max) / `fold_unroll` / `fold_n_unroll`
-* `emu <direct|avx2x8|avx2x16> <mask bits>` → lanes the emulated masked load/store loop accesses
+* `emu <direct|avx2x8|avx2x16> <mask bits> <src cells>` → `load=` lanes of `emuLoad`, `store=` memory image
+    after `emuStore` of `loaded+1` into cells holding -1, `idx=` the cells `emuAccess` dereferences
 * `mask <v> <n> …`  → `first_n_mask` as a 0/1 string of `v` lanes
 * `bmask <v> <n> …` → the AVX-512 bit-loop mask as a 0/1 string of `v` bits
 * `writer <len> <op>…` with ops `v<k>` (write_vec, k lanes), `m<k>x<j>` (write_vecs), `s`
@@ -133,13 +134,20 @@ def handle (line : String) : String :=
     match v.toNat?, init.toInt?, parseIntList "," (if xs == "e" then "" else xs) with
     | some v, some init, some xs => handleFold kind v op init xs
     | _, _, _ => "bad-request"
-  | ["emu", kind, bits] =>
+  | ["emu", kind, bits, srcmem] =>
+    -- masked load from `srcmem` (cells 0..len-1) then masked store of `loaded + 1` into a
+    -- destination of the same length whose cells initially hold the sentinel -1
     let m := bits.toList.map (fun c => c == '1')
     let k? : Option EmuKind := if kind == "direct" then some .direct else if kind == "avx2x8" then some .avx2x8
       else if kind == "avx2x16" then some .avx2x16 else none
-    match k? with
-    | some k => bits01 ((List.range m.length).map (emuBit k m))
-    | none => "bad-request"
+    match k?, parseIntList "," (if srcmem == "e" then "" else srcmem) with
+    | some k, some src =>
+      let mem : Nat → Int := fun a => src.getD a 0
+      let loaded := emuLoad (0 : Int) mem m.length (emuBit k m) 0
+      let touched := emuAccess m.length (emuBit k m) 0
+      let image := emuStore (0 : Int) (fun _ => (-1 : Int)) m.length (emuBit k m) 0 (loaded.map (· + 1))
+      s!"load={showInts "," loaded} store={showInts "," ((List.range src.length).map image)} idx={showNats "," touched}"
+    | _, _ => "bad-request"
   | ["mask", v, n] =>
     match v.toNat?, n.toNat? with
     | some v, some n => bits01 (firstNMask v n)
